@@ -100,11 +100,14 @@ func actions(r *mc.Run) []action {
 	}
 	as := []action{
 		mk("bootstrap", "bootstrap", t0),
-		mk("bootstrap --overwrite", "bootstrap", t0.Add(2*time.Hour), "--overwrite"),
+		// timestamps chosen so that the 5-year and the 25-year span from them contain one leap day more
+		// than the fixed-day lifetimes allow for (creation between 1 March before a leap year and 29
+		// February of it): lifetimes counted in calendar years come out a day longer here
+		mk("bootstrap --overwrite (leap window)", "bootstrap", time.Date(2043, 6, 15, 12, 0, 0, 0, time.UTC), "--overwrite"),
 		mk("rotate", "rotate", t0.Add(24*time.Hour)),
 		// late in the root's 25-year validity: the signing lifetime then extends past the root's end
 		mk("rotate --overwrite +21y", "rotate", t0.Add(21*365*24*time.Hour), "--overwrite"),
-		mk("rotate serial=7", "rotate", t0.Add(72*time.Hour), "--rotated_key_serial_override=7"),
+		mk("rotate serial=7 (leap window)", "rotate", time.Date(2043, 9, 1, 12, 0, 0, 0, time.UTC), "--rotated_key_serial_override=7"),
 		mk("wipeout", "wipeout", t0),
 		mk("wipeout ca", "wipeout", t0, "ca"),
 		mk("wipeout keys", "wipeout", t0, "keys"),
